@@ -113,6 +113,8 @@ def m_sub(a, b):
     if B.any:
         raise S.Expect(T_EMPTY)
     if A.any:
+        if C.norm(B.listed) == ((0, 0x10FFFF),):
+            raise S.Expect(T_EMPTY)         # nothing is left
         return CV(True, B.listed)   # Any - X = ~X
     if A.wordcls and A.wglobal:
         raise S.Expect(T_GLOBAL)
